@@ -433,6 +433,55 @@ def gen_steps(rng):
     return dict(tag='stack history with constructor applications between the calls', lines=[line])
 
 
+def gen_multi(rng, law=False):
+    """several decorated functions alive at once (`stackhist3`): every object ever built stays callable, constructors are applied
+    to ANY earlier object and OLDER objects are called again after later constructions - a constructor must not change what its
+    operand (or an object inside it) answers (P7: the pinned constructor cut same-class wrappers out of its operand's inner
+    objects in place).  Object 0 is the plain function.  Calls: valid scalars, == twins, raising calls.
+    `law=True`: the shape law 7 needs - build x, call it, build further objects on top (never called), call x again"""
+    sig = rng.choice([(['a'], [], None, None), (['a', 'b'], [DEFAULTS[0]], None, None), (['a', 'b'], [DEFAULTS[0]], 'args', 'kw')])
+    calls = [(a, k) for a, k in valid_calls(sig) if a and all(n in sig[0] for n in k)]
+    pool = []
+    for _ in range(rng.choice([1, 2, 3])):
+        a, k = rng.choice(calls)
+        pool.append(([rng.choice([0, 1, 2, 2.5, True, 'x', None]) for _ in a], {n: rng.choice([0, 1, 'x']) for n in k}))
+    a, k = rng.choice(pool)
+    pool.append((['!' + rng.choice('vkt')] + list(a[1:]), dict(k)))            # f raises on this one
+
+    def wrap(src):
+        c = rng.choice(CLASSES)
+        return ('wrap', c, deco_params(rng, c), src)
+    steps = []
+    nobj = 1
+    for _ in range(rng.choice([2, 3, 3])):          # the first object: two or three layers (the defect needs depth >= 2)
+        steps.append(wrap(nobj - 1))
+        nobj += 1
+    if law:
+        x = nobj - 1
+        probe = [rng.choice(pool[:-1]), pool[-1], rng.choice(pool[:-1])]
+        first = [('call', list(a), dict(k), x) for a, k in probe]
+        steps += first
+        for _ in range(rng.choice([1, 2, 3])):
+            steps.append(wrap(rng.randrange(x, nobj)))
+            nobj += 1
+        steps += first
+        return sig, steps, x
+    for _ in range(rng.choice([4, 7, 10])):
+        if rng.random() < 0.35:
+            steps.append(wrap(rng.choice([nobj - 1, nobj - 1, rng.randrange(nobj)])))
+            nobj += 1
+        else:
+            a, k = rng.choice(pool)
+            if rng.random() < 0.2:
+                a = [float(x) if isinstance(x, int) and not isinstance(x, bool) else x for x in a]
+            steps.append(('call', list(a), dict(k), rng.choice([nobj - 1, rng.randrange(1, nobj), rng.randrange(nobj)])))
+    return dict(tag='several decorated functions alive at once: older objects called again after later constructions', lines=[multi_line(sig, steps)])
+
+
+def multi_line(sig, steps):
+    return '(deco stackhist3 %s %s)' % (sig_enc(sig), '(L' + ''.join(' (T %s %s %s %s)' % tuple(enc(y) for y in x) for x in steps) + ')')
+
+
 def generate(rng, tier):
     q = tier == 'quick'
     sigs = list(all_sigs())
@@ -511,6 +560,8 @@ def generate(rng, tier):
         yield gen_stackhist(rng)
     for _ in range(300 if q else 6000):
         yield gen_steps(rng)
+    for _ in range(400 if q else 8000):
+        yield gen_multi(rng)
 
 
 # ---------------------------------------------------------------- implementation runner
@@ -598,6 +649,19 @@ def run_line(state, sx):
                 r = res_val(lambda: g(*args, **kw))
                 out.append((r, Counter.n))
         return 'ok ' + enc(out)
+    if op == 'stackhist3':
+        objs = [f]
+        Counter.n = 0
+        out = []
+        for step in a[1][1:]:
+            kind = proto.dec(step[1])
+            if kind == 'wrap':
+                objs.append(construct(proto.dec(step[2]), proto.dec(step[3]), objs[proto.dec(step[4])]))
+            else:
+                args, kw, g = proto.dec(step[2]), proto.dec(step[3]), objs[proto.dec(step[4])]
+                r = res_val(lambda: g(*args, **kw))
+                out.append((r, Counter.n))
+        return 'ok ' + enc(out)
     if op == 'stack':
         g = f
         for cls, params in decos_dec(a[1]):
@@ -669,7 +733,7 @@ def nontrivial(line, reply):
         return len(sx[3]) > 2
     if sx[1] == 'stackhist':
         return len(sx[4]) > 2
-    if sx[1] == 'stackhist2':
+    if sx[1] in ('stackhist2', 'stackhist3'):
         return len(sx[3]) > 2
     return len(sx[-2]) > 1 or len(sx[-1]) > 1
 
@@ -746,6 +810,17 @@ def ref_stack(ds, f, sig, args, kw):
             return first_arg(sig, a, k)
         return r
     return ev(layers, list(args), dict(kw)), used
+
+
+def _rebuild(sig, steps, x):
+    """object number x of a `stackhist3` step list, built afresh (nothing else is built: its chain as the constructor made it)"""
+    objs = [make_fn(sig)]
+    for st in steps:
+        if st[0] == 'wrap':
+            objs.append(construct(st[1], st[2], objs[st[3]]))
+            if len(objs) == x + 1:
+                break
+    return objs[x]
 
 
 def laws(rng, tier, ctx):
@@ -1015,6 +1090,27 @@ def laws(rng, tier, ctx):
             k5 = k5_only
             yield Finding('violation', dict(case, tag='law-cache-ndarray' if k5 else 'law-cache'),
                           'cached function does not evaluate once per distinct combination / return the first result: %s' % enc(list(failing[0])))
+    # (7) a constructor does not change what an EXISTING decorated function answers: x is built and called (a valid call, a
+    # raising call, the valid call again), further objects are built on top of x (or of each other) and never called, then x
+    # gets the same three calls again: the same replies, and a non-raising call executes f once - or not at all when x holds a
+    # cache layer (it was evaluated in the first round)
+    for _ in range(300 if tier == 'quick' else 5000):
+        sig, steps, x = gen_multi(rng, law=True)
+        line = multi_line(sig, steps)
+        count += 1
+        reply = run_line(None, proto.parse(line))
+        out = proto.dec(proto.parse(reply[3:]))
+        classes = [c for c, _ in dump(_rebuild(sig, steps, x))[0]]
+        (r1, n1), (r2, n2), (r3, n3), (s1, m1), (s2, m2), (s3, m3) = out
+        cached = 'cache_func' in classes
+        bad = None
+        if enc([r1, r2, r3]) != enc([s1, s2, s3]):
+            bad = 'replies before the later constructions %r, after %r' % ([r1, r2, r3], [s1, s2, s3])
+        elif not (isinstance(s1, tuple) and s1[:1] == ('!raised',)) and (m1 - n3, m3 - m2) != ((0, 0) if cached else (1, 1)):
+            bad = 'executions of f on the two non-raising calls after the later constructions: %r (x %s a cache layer)' % ((m1 - n3, m3 - m2), 'has' if cached else 'has not')
+        if bad:
+            yield Finding('violation', dict(tag='law-operand-kept', lines=[line]),
+                          'object %d (%s) answers differently after objects were built on top of it: %s' % (x, '('.join(classes), bad))
     yield count
 
 
